@@ -263,6 +263,11 @@ func genC17(env *core.Env, emit func(core.Case)) {
 			var calls []tcall
 			tr := ech.NewTransport()
 			tr.Resolver = resolver
+			if host == "mixed.example" || host == "plain.example" {
+				// the application installs a Dialer of its own (the field is exported for that) instead of
+				// adjusting the one NewTransport put there
+				tr.Dialer = &ech.Dialer[*tls.Conn]{}
+			}
 			tr.Dialer.RequireECH = requireECH
 			tr.Dialer.MaxConcurrency = 1
 			tr.Dialer.ConcurrencyDelay = time.Millisecond
@@ -298,7 +303,10 @@ func genC17(env *core.Env, emit func(core.Case)) {
 					w = "TLS server name " + c.sn + " is not the URL's host " + host
 				}
 			}
-			if host == "ech.example" && len(calls) == 0 && w == "" {
+			if host == "plain.example" && requireECH && len(calls) > 0 && w == "" {
+				w = fmt.Sprintf("RequireECH is set on the Transport's Dialer, %s publishes no ECH config, and yet %d attempts were made", host, len(calls))
+			}
+			if (host == "ech.example" || host == "mixed.example") && len(calls) == 0 && w == "" {
 				w = fmt.Sprintf("no attempt was made for %s (error: %v)", host, rerr)
 			}
 			emit(core.Case{Name: fmt.Sprintf("via-transport/%d", idx), Stream: "via-transport", Key: fmt.Sprintf("via-transport/%s/%v", host, requireECH),
